@@ -945,6 +945,73 @@ theorem C01_hist_sigmoid_on_lattice (t : Tie) (s0 : SurSt) (h : List (HStep SurE
   obtain ⟨k, h1, h2, hk⟩ := C01_sigmoid_on_lattice t s.bits s.symmetric p hb
   exact ⟨k, h1, h2, by show Ans.val _ = _; rw [hk]⟩
 
+/-! ## Strengthening round 3 (seed C02-7): `use_stochastic_rounding` × the learning phase
+
+  The code set does not depend on HOW `_round_through` rounds: the clip that follows it puts every
+  integer it may return on the lattice.  So the "codes only" clause holds under every flag, learning
+  phase and draw (training included) — `qbitsR ρ` etc. for an arbitrary rounding step `ρ`, and the
+  `q…S` corollaries for `_round_through` as coded.  (`quantized_linear` clips BEFORE rounding: there the
+  rounding step has to return an adjacent integer, which `_round_through` does: `roundThroughI_adjacent`.) -/
+
+theorem C01_bits_on_lattice_any_round (ρ : ℚ → ℤ) (c : BitsCfg) (h : 0 < c.ub) (x : ℚ) :
+    ∃ k : ℤ, c.lo ≤ k ∧ k ≤ c.hi ∧ qbitsR ρ c x = c.gain * (k : ℚ) * c.step := by
+  refine ⟨iclip (ρ (x / c.step)) c.lo c.hi, (iclip_bounds c.lo_le_hi).1, (iclip_bounds c.lo_le_hi).2, ?_⟩
+  unfold qbitsR; rw [if_pos h]
+
+/-- every flag, learning phase and draw -/
+theorem C01_bits_stoch_on_lattice (t : Tie) (r : RoundMode) (c : BitsCfg) (h : 0 < c.ub) (x : ℚ) :
+    ∃ k : ℤ, c.lo ≤ k ∧ k ≤ c.hi ∧ qbitsS t r c x = c.gain * (k : ℚ) * c.step :=
+  C01_bits_on_lattice_any_round _ c h x
+
+theorem C01_relu_plain_on_lattice_any_round (ρ ρ2 : ℚ → ℤ) (c : ReluCfg) (h : c.slopeLog = none) (x : ℚ) :
+    ∃ k : ℤ, 0 ≤ k ∧ k ≤ c.hi ∧ qreluR ρ ρ2 c x = (k : ℚ) * c.step := by
+  refine ⟨iclip (ρ (x / c.step)) 0 c.hi, (iclip_bounds c.zero_le_hi).1, (iclip_bounds c.zero_le_hi).2, ?_⟩
+  unfold qreluR; simp only [h]
+
+/-- `quantized_relu` (plain, no active upper bound) under every flag, phase and draw -/
+theorem C01_relu_plain_stoch_on_lattice (t : Tie) (r : RoundMode) (c : ReluCfg) (h : c.slopeLog = none)
+    (hc : c.clamp = none) (x : ℚ) :
+    ∃ k : ℤ, 0 ≤ k ∧ k ≤ c.hi ∧ qreluUS t r c x = (k : ℚ) * c.step := by
+  obtain ⟨k, h1, h2, hk⟩ := C01_relu_plain_on_lattice_any_round (r.rho t) (r.rho2 t) c h x
+  exact ⟨k, h1, h2, by unfold qreluUS qreluUR; rw [hc]; exact hk⟩
+
+theorem C01_linear_on_lattice_adjacent_round (ρ : ℚ → ℤ) (hρ : Adjacent ρ) (c : LinCfg) (h : c.signFn = false)
+    (x : ℚ) : ∃ k : ℤ, c.lo ≤ k ∧ k ≤ c.hi ∧ qlinearR ρ c x = (k : ℚ) * c.qs := by
+  have hlh : (c.lo : ℚ) ≤ (c.hi : ℚ) := by exact_mod_cast c.lo_le_hi
+  unfold qlinearR
+  simp only [h, Bool.false_eq_true, if_false]
+  refine ⟨_, ?_, ?_, rfl⟩ <;>
+  · split
+    · first | exact (hρ.mem (le_refl _) hlh).1 | exact (hρ.mem (le_refl _) hlh).2
+    · split
+      · first | exact (hρ.mem hlh (le_refl _)).1 | exact (hρ.mem hlh (le_refl _)).2
+      · first | exact (hρ.mem (not_lt.mp ‹_›) (not_lt.mp ‹_›)).1 | exact (hρ.mem (not_lt.mp ‹_›) (not_lt.mp ‹_›)).2
+
+theorem C01_linear_stoch_on_lattice (t : Tie) (r : RoundMode) (c : LinCfg) (h : c.signFn = false) (x : ℚ) :
+    ∃ k : ℤ, c.lo ≤ k ∧ k ≤ c.hi ∧ qlinearS t r c x = (k : ℚ) * c.qs :=
+  C01_linear_on_lattice_adjacent_round _ (RoundMode.rho_adjacent t r) c h x
+
+theorem C01_tanh_stoch_on_lattice (t : Tie) (r : RoundMode) (bits : ℤ) (sym : Bool) (p : ℚ) :
+    ∃ k : ℤ, - tp (bits - 1) + (if sym then 1 else 0) ≤ k ∧ k ≤ tp (bits - 1) - 1 ∧
+      qtanhPS t r bits sym p = (k : ℚ) / (tp (bits - 1) : ℚ) := by
+  have hle : - tp (bits - 1) + (if sym then 1 else 0) ≤ tp (bits - 1) - 1 := by
+    have := tp_pos (bits - 1); split <;> omega
+  exact ⟨_, (iclip_bounds hle).1, (iclip_bounds hle).2, rfl⟩
+
+theorem C01_sigmoid_stoch_on_lattice (t : Tie) (r : RoundMode) (bits : ℤ) (sym : Bool) (p : ℚ)
+    (hb : sym = true → 1 ≤ bits) :
+    ∃ k : ℤ, (if sym then 1 else 0) ≤ k ∧ k ≤ tp bits - 1 ∧
+      qsigmoidPS t r bits sym p = (k : ℚ) / (tp bits : ℚ) := by
+  obtain ⟨k0, hk1, hk2, _⟩ := C01_sigmoid_on_lattice t bits sym p hb
+  have hle : (if sym then (1 : ℤ) else 0) ≤ tp bits - 1 := le_trans hk1 hk2
+  exact ⟨_, (iclip_bounds hle).1, (iclip_bounds hle).2, rfl⟩
+
+/-- with the learning phase off (or the flag off) the flagged quantizer is the plain one, so everything
+    above — reporters, `range()`, cardinality — carries over; `quantized_bits` spelled out -/
+theorem C01_bits_stoch_inference_eq (t : Tie) (r : RoundMode) (hd : r.Det) (c : BitsCfg) (x : ℚ) :
+    qbitsS t r c x = qbits t c x := by
+  unfold qbitsS; rw [RoundMode.rho_det t hd]; rfl
+
 /-! ## non-vacuity -/
 
 example : (0 : ℤ) < ({ bits := 8, integer := 0, symmetric := false, keepNeg := true,
